@@ -615,6 +615,21 @@ func (x *Exec) applyModifies(st *State, c *SpecCtx, m *Expr) error {
 		}
 		return nil
 	case "call":
+		if m.Name == "maps" && len(m.Args) == 1 {
+			// maps(T): the content of every map of (named or literal) map type T
+			mt, err := x.mapTypeOf(c, m.Args[0])
+			if err != nil {
+				return err
+			}
+			for _, key := range mapKeys(mt) {
+				s, ok := x.heapSort[key]
+				if !ok {
+					continue
+				}
+				x.heapSet(st, key, x.D.fresh("mod.maps", s))
+			}
+			return nil
+		}
 		if m.Name == "field" && len(m.Args) == 1 && m.Args[0].Kind == "field" {
 			// field(e.f): the field itself even when map-typed
 			b, err := x.specEval(c, m.Args[0].Args[0])
@@ -841,4 +856,17 @@ func (x *Exec) detExternResult(st *State, key string, args []*Val, rt types.Type
 	})
 	x.assume(st, x.typeFacts(v, rt))
 	return v, true
+}
+
+// mapTypeOf resolves the argument of maps(T) to a map type.
+func (x *Exec) mapTypeOf(c *SpecCtx, e *Expr) (*types.Map, error) {
+	t, err := x.goType(e.String(), c.pkg)
+	if err != nil {
+		return nil, fmt.Errorf("maps(%s): %v", e.String(), err)
+	}
+	mt, ok := t.Underlying().(*types.Map)
+	if !ok {
+		return nil, fmt.Errorf("maps(%s): not a map type", e.String())
+	}
+	return mt, nil
 }
